@@ -22,7 +22,8 @@ def msg_head(eng_out):
     m = re.sub(r'"[^"]*"', '"_"', m)
     m = re.sub(r"'[^']*'", "'_'", m)
     m = re.sub(r'\d+', 'N', m)
-    return re.split(r'[\n!:]', m.replace('Binder Error: ', '').replace('Parser Error: ', '').replace('Conversion Error: ', ''))[0].strip()[:60]
+    m = re.split(r'[\n!:]', m.replace('Binder Error: ', '').replace('Parser Error: ', '').replace('Conversion Error: ', ''))[0]
+    return ' '.join(re.sub(r'["\'(),_]', ' ', m).split()[:5])
 
 
 def classify(case, verdict, detail, eng_out):
